@@ -121,6 +121,43 @@ def cases(tier, seed, ctx=None):
             rest -= k
         yield ("sock", [G.NOPOL, out, env, [18]], "random")
 
+    # responses written from inside the request notification: a request head (with headers a server might act on by itself, body
+    # still outstanding or complete) arrives, the application answers synchronously from headersParsed / readyRead, everything is
+    # acknowledged: the notifications still count the body bytes of the response and nothing else
+    nreq = 150 if tier == "quick" else 2500
+    reqs = []
+    for _ in range(nreq):
+        q = G.valid_request(rng, body_len=rng.choice([0, 3, 10]))
+        extra = rng.choice(G.SEMANTIC)
+        head = q["head"] + b"\r\n" + extra[0] + b": " + extra[1] + b"\r\n\r\n"
+        reqs.append((q, head))
+    rver, rtab = G.oracle(ctx, [q["raw"] for q, _ in reqs])
+    late_reqs = []
+    for q, head in reqs:
+        body = rng.bytes(max(0, q["cl"]))
+        sent = rng.choice([0, 0, len(body)])                 # the body is still outstanding, or came with the head
+        resp = [G.Write(rng.bytes(rng.choice([1, 30, 300]))) for _ in range(rng.range(1, 3))]
+        if rng.chance(1, 3):
+            resp.insert(0, G.WriteHeaders)
+        pol = rng.choice([[resp, [], []], [[], resp, []]]) if sent else [resp, [], []]
+        ops = [G.Construct, G.Feed(head + body[:sent]), G.Turn] + [G.Ack(rng.choice([1, 19, 25, 40])) for _ in range(rng.range(0, 3))]
+        skel = [pol, ops, G.env_for(rver, rtab, [q["raw"]])]
+        late_reqs.append(skel)
+    dry = ctx["probe"]("sock", [[pol, [o for o in ops if o[0] != 1], env2] for pol, ops, env2 in late_reqs])
+    for (pol, ops, env2), log in zip(late_reqs, dry):
+        tot = sum(len(e[1]) for e in log if e[0] == 5)
+        out, acked = [], 0
+        for o in ops:
+            if o[0] == 1:
+                k = min(o[1], tot - acked)
+                if k > 0:
+                    out.append(G.Ack(k)); acked += k
+            else:
+                out.append(o)
+        if tot - acked > 0:
+            out.append(G.Ack(tot - acked))
+        yield ("sock", [pol, out, env2, [18]], "answered-from-the-request-notification")
+
     # a listener that subscribes late: after the head (or part of the response) has already been acknowledged, before it, between
     # partial acknowledgements, or never
     late_skels = []
